@@ -42,6 +42,9 @@ def o2(ctx: Ctx):
     """O2 levels start empty and grow only by the append in _do_sprout (and the root); demes are created only there (R07.4, R05.5)."""
     out = []
     for o in c07.r07_4(ctx) + c05.r05_5(ctx):
+        # only the level lists matter for the count of active demes per level; parent/child links and identity fields are C07's
+        if o.rule == "R07.4" and not ("level" in o.detail or "tree structure" in o.detail):
+            continue
         o.rule = "C08.O2"
         out.append(o)
     return out
@@ -237,7 +240,7 @@ def _strip_not(t):
     return t
 
 
-def o4(ctx: Ctx):
+def o4(ctx: Ctx, ties_matter: bool = True):
     """O4 cardinality of LevelLimit: at most (limit - active) candidates survive on each level."""
     ci = ctx.prog.cls("LevelLimit")
     f = ci.methods.get("__call__")
@@ -394,6 +397,19 @@ def o4(ctx: Ctx):
         obs.append(ctx.ob("C08.O4", f, pred, status=INCONCLUSIVE, detail=f"keep-predicate `{norm(pred)}` is not a single comparison", construct="keep-pred"))
         return obs
     l, r, op = pred.left, pred.comparators[0], pred.ops[0]
+    if isinstance(op, (ast.In, ast.NotIn)) and norm(l) == ind:
+        # membership in a slice of the sorted level candidates: list membership uses Individual.__eq__ (fitness equivalence)
+        sub = {k: v for k, v in alldefs.items() if k not in (C, D)}
+        rt = canon(r, sub)
+        want_prefix = f"{C}[:{sn}.limit-{canon(A, sub)}]"
+        if isinstance(op, ast.In) and rt == want_prefix and desc and key_txt is None:
+            if ties_matter:
+                obs.append(ctx.ob("C08.O4", f, pred, status=VIOLATION, detail=f"keep-predicate `{norm(pred)}`: membership in the accepted prefix compares by fitness equivalence, so every candidate TIED with an accepted one is accepted too and more than limit - active survive", construct="keep-pred"))
+            else:
+                obs.append(ctx.ob("C08.O4", f, pred, detail="keeps the candidates found in the best (limit - active) prefix: exactly the free slots when the fitness values are distinct", construct="keep-pred"))
+        else:
+            obs.append(ctx.ob("C08.O4", f, pred, status=INCONCLUSIVE, detail=f"keep-predicate `{norm(pred)}`: cannot relate `{rt[:60]}` to the best (limit - active) prefix of the sorted candidates", construct="keep-pred"))
+        return obs
     # orient as  key(ind) OP key(pivot)
     if ind not in {x.id for x in ast.walk(l) if isinstance(x, ast.Name)}:
         flip = {ast.Lt: ast.Gt, ast.Gt: ast.Lt, ast.LtE: ast.GtE, ast.GtE: ast.LtE}
